@@ -40,6 +40,37 @@ def cmp_canon(sym, var):
     return name, c
 
 
+def check_alive_flag(ctx, rule):
+    """`alive` is either a stored flag written only by __init__ (True) and destroy() (False), or a property that is exactly
+    `destroy_time is None`.  Anything else (e.g. truthiness of a time that may be 0.0) is a violation.  Also used by C02."""
+    repo = ctx.repo
+    f_destroy = repo.func('ObjectBase.destroy')
+    ob = repo.cls(OB)
+    prop = None
+    for c in ob.mro():
+        m = c.methods.get('alive')
+        if m is not None:
+            prop = m
+    dp = paths_of(repo, f_destroy)
+    if prop is not None:
+        rets = [p for p in paths_of(repo, prop) if p.outcome[0] == 'return']
+        ok = bool(rets) and all(norm(p.outcome[1]) == 'self.destroy_time is None' for p in rets) and any(norm(d) == 'property' for d in prop.node.decorator_list)
+        ctx.check(ok, rule, 'alive:derived', prop.loc(), 'alive is derived as `destroy_time is None`',
+                  'alive is computed as `%s`: not equivalent to "destroy() was never called" (a destroy time of 0.0 - the first message\'s time - is falsy)' % (norm(rets[0].outcome[1]) if rets else '?'))
+        check_writers(ctx, rule, OB, 'destroy_time', [('ObjectBase.__init__', lambda w: w.fresh and isinstance(w.stmt.value, ast.Constant) and w.stmt.value.value is None), ('ObjectBase.destroy', lambda w: norm(w.stmt.value) == 'time')], floor=2)
+        return dp
+
+    def const_store(val):
+        return lambda w: w.kind == 'store' and isinstance(w.stmt, (ast.Assign, ast.AnnAssign)) \
+            and isinstance(w.stmt.value, ast.Constant) and w.stmt.value.value is val
+    check_writers(ctx, rule, OB, 'alive', [('ObjectBase.__init__', lambda w: w.fresh and const_store(True)(w)),
+                                           ('ObjectBase.destroy', const_store(False))], floor=2)
+    # destroy() always stores False (no path skips it)
+    ctx.check(all(any(e.kind == 'store' and e.target == 'self.alive' for e in p.events) for p in dp if p.outcome[0] != 'raise'),
+              rule, 'destroy:always-clears', f_destroy.loc(), 'destroy() clears alive on every path')
+    return dp
+
+
 def run(ctx):
     repo = ctx.repo
     ctx.decided = ['C03.1 writers of alive', 'C03.2 who destroys', 'C03.3 annotation', 'C03.4 one alive per id',
@@ -50,16 +81,7 @@ def run(ctx):
     f_create = repo.func('ConnectionImpl.create_object')
     f_mres = repo.func('message.Message.resolve')
 
-    # ---- C03.1 ------------------------------------------------------------------------------------
-    def const_store(val):
-        return lambda w: w.kind == 'store' and isinstance(w.stmt, (ast.Assign, ast.AnnAssign)) \
-            and isinstance(w.stmt.value, ast.Constant) and w.stmt.value.value is val
-    check_writers(ctx, 'C03.1', OB, 'alive', [('ObjectBase.__init__', lambda w: w.fresh and const_store(True)(w)),
-                                              ('ObjectBase.destroy', const_store(False))], floor=2)
-    # destroy() always stores False (no path skips it)
-    dp = paths_of(repo, f_destroy)
-    ctx.check(all(any(e.kind == 'store' and e.target == 'self.alive' for e in p.events) for p in dp if p.outcome[0] != 'raise'),
-              'C03.1', 'destroy:always-clears', f_destroy.loc(), 'destroy() clears alive on every path')
+    dp = check_alive_flag(ctx, 'C03.1')
 
     # ---- C03.2 who destroys ------------------------------------------------------------------------
     check_callers(ctx, 'C03.2', 'destroy', {'Message.resolve', 'ConnectionImpl.create_object'}, floor=2)
